@@ -243,6 +243,83 @@ theorem later_reader_sees_commit {cfg : Cfg} {v0 f0 : Nat} {s s' : St} (hr : cfg
   rw [this, hs.history, hh]
   exact mem_replay hm hnd
 
+/-- once a commit's version swap is done its edit log is in the history … -/
+theorem commit_recorded {cfg : Cfg} {v0 f0 : Nat} {s : St} (hr : cfg.recheck = true) (hcl : cfg.cloneLocked = true)
+    (h : Reachable cfg v0 f0 s) (j : Nat) (hj : j < s.nJob) (hp : postSwap (s.job j).pc = true) :
+    (s.job j).edit ∈ s.hist :=
+  ((safe_reachable hr hcl h).jobs j hj).recorded hp
+
+/-- … and stays there along every schedule (any variant) -/
+theorem installed_commit_stays {cfg : Cfg} {s s' : St} {acts : List Act} (hrun : run cfg s acts = some s')
+    (e : Edit) (he : e ∈ s.hist) : e ∈ s'.hist :=
+  (frame_run hrun).hist_grows e he
+
+/-- ALL interleavings of any number of concurrent committers (in particular two overlapping
+flush / compaction / rollup commits on the family): every commit whose swap completed before a
+reader starts — i.e. every `e` in the history — is visible to that reader: each table `e` added is
+listed by the reader's version unless an edit installed after `e` deleted it. -/
+theorem completed_commits_visible {cfg : Cfg} {v0 f0 : Nat} {s s' : St} (hr : cfg.recheck = true)
+    (hcl : cfg.cloneLocked = true) (h : Reachable cfg v0 f0 s) (hst : step cfg s .acquire = some s')
+    (e : Edit) (he : e ∈ s.hist) :
+    ∃ later earlier, s.hist = later ++ e :: earlier ∧
+      ∀ m ∈ e.adds, (∀ e' ∈ later, (m.level, m.no) ∉ e'.dels) → m ∈ (s'.ver (s'.snap s.nSnap).ver).files := by
+  obtain ⟨later, earlier, hh⟩ := List.append_of_mem he
+  exact ⟨later, earlier, hh, fun m hm hnd => (later_reader_sees_commit hr hcl h hst later earlier e hh m hm hnd).2.2⟩
+
+/-- two committers `j ≠ k` that both finished their swap: a reader starting now sees the tables
+of both (flushes add, never delete; nothing installed since deleted them) -/
+theorem two_committers_both_visible {cfg : Cfg} {v0 f0 : Nat} {s s' : St} (hr : cfg.recheck = true)
+    (hcl : cfg.cloneLocked = true) (h : Reachable cfg v0 f0 s) (hst : step cfg s .acquire = some s')
+    (j k : Nat) (hj : j < s.nJob) (hk : k < s.nJob)
+    (hpj : postSwap (s.job j).pc = true) (hpk : postSwap (s.job k).pc = true)
+    (hnodel : ∀ e' ∈ s.hist, e'.dels = []) :
+    (∀ m ∈ (s.job j).edit.adds, m ∈ (s'.ver (s'.snap s.nSnap).ver).files) ∧
+    (∀ m ∈ (s.job k).edit.adds, m ∈ (s'.ver (s'.snap s.nSnap).ver).files) := by
+  have key : ∀ e ∈ s.hist, ∀ m ∈ e.adds, m ∈ (s'.ver (s'.snap s.nSnap).ver).files := by
+    intro e he m hm
+    obtain ⟨later, earlier, hh, hv⟩ := completed_commits_visible hr hcl h hst e he
+    apply hv m hm
+    intro e' he'
+    have := hnodel e' (by rw [hh]; simp [he'])
+    simp [this]
+  exact ⟨key _ (commit_recorded hr hcl h j hj hpj), key _ (commit_recorded hr hcl h k hk hpk)⟩
+
+/-! ### reader-cache cleanup as a nondeterministic step (LRU order / TTL not modelled) -/
+
+/-- `Cleanup` may close ANY set of entries whose ref is 0 — whatever the LRU order and the expiry
+times are, the entries it actually closes form such a set (regenerated guard `ref-zero, expired`). -/
+theorem cleanup_enabled_iff (cfg : Cfg) (s : St) (fs : List Nat) :
+    (∃ s', step cfg s (.cleanup fs) = some s') ↔ ∀ f ∈ fs, s.cref f = some 0 := by
+  simp only [step]
+  constructor
+  · rintro ⟨s', hs⟩
+    split at hs
+    next hc =>
+      intro f hf
+      rw [List.all_eq_true] at hc
+      simpa [canClean] using hc f hf
+    next => cases hs
+  · intro hall
+    have : fs.all (canClean s.cref) = true := by
+      rw [List.all_eq_true]; intro f hf; simp [canClean, hall f hf]
+    exact ⟨_, by rw [if_pos this]⟩
+
+/-- whichever unreferenced entries a cleanup closes, every reader retained by an open snapshot
+stays mapped, and the state stays `Safe` -/
+theorem cleanup_any_choice_keeps_held_readers {cfg : Cfg} {v0 f0 : Nat} {s s' : St} (hr : cfg.recheck = true)
+    (hcl : cfg.cloneLocked = true) (h : Reachable cfg v0 f0 s) (fs : List Nat)
+    (hst : step cfg s (.cleanup fs) = some s') :
+    Safe s' ∧ ∀ i, i < s.nSnap → (s.snap i).st = .opened → ∀ f ∈ (s.snap i).held, s'.cref f ≠ none := by
+  have hs' := safe_step hr hcl (safe_reachable hr hcl h) hst
+  refine ⟨hs', ?_⟩
+  intro i hi ho f hf
+  have hsnap : s'.snap = s.snap ∧ s'.nSnap = s.nSnap := by
+    simp only [step] at hst
+    split at hst
+    · cases hst; exact ⟨rfl, rfl⟩
+    · cases hst
+  exact hs'.held_mapped i (by rw [hsnap.2]; exact hi) (by rw [hsnap.1]; exact ho) f (by rw [hsnap.1]; exact hf)
+
 /-! ### non-vacuity: a non-trivial reachable state of the safe variant -/
 
 def demoCfg : Cfg := { recheck := true, threshold := 2, rollupOn := true }
